@@ -73,7 +73,7 @@ PROPS = {
         title="persist/restore unobservable",
         theorems={HISTORY: ["C05_persist_identity", "C18_history_extends"]},
         keys=None, offers="full",
-        prof=dict(p_template=0.3, templates=[8, 8, 2, 3, 0, 6], p_badexpr=0.2, bad_where=["vars", "wfinput", "vars", "output", "publish"]),
+        prof=dict(p_template=0.35, templates=[8, 8, 2, 3, 0, 6, 15, 15, 10], p_badexpr=0.2, bad_where=["vars", "wfinput", "vars", "output", "publish"]),
         hist=dict(p_persist=0.35, p_pause=0.05, p_rerun=0.2, p_lazy_start=0.25, p_persist_first=0.3), monitor="C05",
         unproven=["the model has value semantics, so restore is the identity on it by construction; aliasing in the implementation is visible only to the correspondence check with persist ops and to the twin monitor"],
     ),
@@ -173,7 +173,7 @@ PROPS = {
         theorems={HISTORY: ["C18_extends_request", "C18_extends_next", "C18_extends_report", "C18_extends_render", "C18_extends_rerun", "C18_history_extends", "C18_record_core_fixed", "C18_context_fixed"], ITEMS: ["C13_completed_rows"], RETRY: ["C13_retrying_only_by_retry_event", "C13_no_retry_without_status_change"], STATUS: ["C03_fresh_start_statuses"],
                   FROZEN: ["C18_decisions_never_change", "C18_decided_records_frozen", "C18_decided_records_completed"]},
         keys=["contexts", "routes", "sequence"], offers=None,
-        prof=dict(p_items=0.25, p_join=0.7, p_loop=0.3, p_template=0.3, templates=[8, 8, 2, 0, 3]),
+        prof=dict(p_items=0.25, p_join=0.7, p_loop=0.3, p_template=0.3, templates=[8, 8, 2, 0, 3, 15]),
         hist=dict(p_fail=0.3, p_persist=0.15, p_rerun=0.3, p_dup_report=0.3, p_lazy_start=0.25),
         monitor="C18", unproven=["append-only history, frozen contexts/predecessors, frozen status and decisions of decided records are all proved along every history; what remains search-only is the tie of the model to the code"],
     ),
